@@ -439,6 +439,58 @@ theorem woken_task_polled_again {nw : Nat} {conc : Bool} {s : St} (h : Reachable
     cases hm : s.main w <;> simp [hm, Main.canPoll, Main.gone] at hc hg
     simp [step?, reap?, hm, hw]
 
+/-! ### teardown does not depend on wakes or on runnable tasks -/
+
+/-- wake-ups leave workers, queue, sender and every task's place and channel alone -/
+theorem wakes_change_nothing_else {s s' : St} (ts : List Nat) (h : run? s (ts.map .remoteWake) = some s') :
+    s'.main = s.main ∧ s'.nw = s.nw ∧ s'.queue = s.queue ∧ s'.sender = s.sender ∧ s'.stat = s.stat ∧
+      s'.chan = s.chan ∧ s'.joined = s.joined ∧ s'.joiner = s.joiner := by
+  induction ts generalizing s with
+  | nil => simp [run?] at h; subst h; simp
+  | cons t ts ih =>
+    obtain ⟨s1, h1, h2⟩ := run?_cons h
+    obtain ⟨_, rfl⟩ := remoteWake?_some h1
+    simpa using ih h2
+
+/-- Any number of remote wakes -- of any tasks, in any states of their scheduling, before or after `join` was
+called -- leaves the exit path of every worker exactly as enabled as it was: leaving the loop, the teardown
+(`executor.clear()`), the unwinding of a panicked worker and the return of `join`. -/
+theorem exit_path_independent_of_wakes {s s' : St} (ts : List Nat)
+    (h : run? s (ts.map .remoteWake) = some s') (w : Nat) :
+    (step? s' (.exitLoop w)).isSome = (step? s (.exitLoop w)).isSome ∧
+    (step? s' (.teardown w)).isSome = (step? s (.teardown w)).isSome ∧
+    (step? s' (.reap w)).isSome = (step? s (.reap w)).isSome ∧
+    (step? s' .joinReturn).isSome = (step? s .joinReturn).isSome := by
+  obtain ⟨h1, h2, h3, h4, _, _, h7, h8⟩ := wakes_change_nothing_else ts h
+  refine ⟨?_, ?_, ?_, ?_⟩
+  · simp only [step?, exitLoop?, h1, h2, h3, h4]; split <;> simp
+  · simp only [step?, teardown?, h1, h2]; split <;> simp
+  · simp only [step?, reap?, h1, h2]; cases s.main w <;> simp <;> split <;> simp
+  · have hall : allGone s' = allGone s := by simp [allGone, h1, h2]
+    simp only [step?, joinReturn?, h4, h7, h8, hall]
+    cases (!s.sender && s.joiner.isSome && s.joined.isNone && allGone s) <;> simp
+
+/-- A worker that has left its loop can always drop its runtime -- whatever is still in its executor: parked
+tasks, tasks that were woken (any number of times) and tasks that are runnable and would go on yielding for
+ever.  `block_on` does not wait for them. -/
+theorem teardown_always_possible (s : St) (w : Nat) (hw : w < s.nw) (hd : s.main w = .draining) :
+    (step? s (.teardown w)).isSome = true := by
+  simp [step?, teardown?, hw, hd]
+
+/-- ... and the teardown resolves the receiver of every task that was still in that executor: the task
+object is dropped with its `callback`, the receiver reports `Canceled` (unless the caller had dropped it). -/
+theorem teardown_cancels_unfinished {nw : Nat} {conc : Bool} {s s' : St} (h : Reachable nw conc s) (w : Nat)
+    (hs : step? s (.teardown w) = some s') (t : Nat) (ha : s.active t w) :
+    s'.chan t = .cancelled ∨ s'.chan t = .closed := by
+  obtain ⟨_, _, rfl⟩ := teardown?_some hs
+  have h5 := (h.inv.t.ok t).chan
+  simp only [St.view] at h5
+  have ha' : (s.stat t).activeOn w = true := ha
+  rw [clearExec_chan]
+  simp only [ha', if_true]
+  cases hst : s.stat t <;> simp [hst, TStat.activeOn] at ha' <;> simp [hst, chanOk] at h5 <;>
+    (rcases h5 with h5 | h5 <;> simp [h5, Chan.cancel])
+
 /-! ### the tie to the driver -/
 
 /-- Whatever the canonical scheduler of `c18d` prints (unless it printed `model-stuck`) is read off a
